@@ -176,7 +176,12 @@ pub fn check_string(s: &String, st: &mut Stats) -> Result<(), Failure> {
                 ExpKind::Unspecified => st.class("kind:unspecified"),
             }
         }
-        Ok(Ok(_)) => st.class("version-ok"),
+        Ok(Ok(v)) => {
+            st.class("version-ok");
+            if s.len() > max_len() {
+                return Err(Failure::new("over-long-accepted", format!("Version::parse of a {}-byte string returned Ok({}) instead of MaxLengthError", s.len(), v)));
+            }
+        }
         Err(_) => st.class("version-parse-panicked(C06)"),
     }
     // Range::parse
